@@ -31,8 +31,12 @@ import (
 //	                 a comparator literal counts only if the comparator is proper (sortcomparators.go scProper: it
 //	                 compares a key of element i with the same key of element j)
 //	keyed-write      every effect of body is an assignment / delete / op-assignment on a map or slice element or a
-//	                 field of it, `m[k]…`, whose index k is (an expression of) the loop's own KEY variable — distinct
-//	                 iterations touch distinct elements, so the effects commute — or a set insert `m[k] = true|struct{}{}`
+//	                 field of it, `m[k]…`, whose index k IS the loop's own KEY variable (or a conversion of it, or
+//	                 `<value>.Name`) — distinct iterations touch distinct elements, so the effects commute — or a set
+//	                 insert `m[k] = true|struct{}{}`. An index merely DERIVED from the key (`res[astNode.Name]` with a
+//	                 pointer key, `m[strings.ToLower(k)]`) is NOT accepted by rule: whether two keys can give the same
+//	                 index is an invariant of the ranged map (e.g. "the filter above keeps package-scope identifiers
+//	                 only") - such a site is order-sensitive unless reviewed (hash-pinned, so editing the filter re-opens it)
 //	pure-search      body is made only of `if <cond> { return <constants> }` / `continue` statements and local
 //	                 declarations: it returns the same whichever matching element is met first
 //	commutative-acc  every effect of body is `n++`, `n += e`, `n |= e`, `b = b || e`, `b = b && e` on outer variables
@@ -142,6 +146,7 @@ func (c *classifier) usesKey(x ast.Expr) bool {
 type effects struct {
 	appendTo   map[string]bool // slice variables appended to
 	keyed      int
+	derived    []string // keyed writes whose index is DERIVED from the loop key (`m[k.Name]`, `m[f(k)]`): see derivedIndex
 	acc        int
 	other      []string
 	returns    int
@@ -253,6 +258,9 @@ func (c *classifier) collect(body *ast.BlockStmt) *effects {
 				if ix := mrFindIndex(lhs); ix != nil {
 					if c.chainUsesKey(lhs) {
 						ef.keyed++
+						if d := c.derivedIndex(lhs); d != "" {
+							ef.derived = append(ef.derived, d)
+						}
 						continue
 					}
 					if i < len(s.Rhs) && mrIsConstExpr(s.Rhs[i]) && s.Tok == token.ASSIGN {
@@ -364,6 +372,56 @@ func (c *classifier) chainUsesKey(x ast.Expr) bool {
 			x = e.X
 		default:
 			return false
+		}
+	}
+}
+
+// isKeyItself: x IS the loop's key variable (possibly converted, `string(k)`, or parenthesised) or `<value>.Name`
+// (see usesKey) - two iterations then never address the same entry. Anything else built from the key (`k.Name` where
+// k is a pointer / struct key, `strings.ToLower(k)`, `f(k)`) is a PROJECTION of the key: two different keys may give
+// the same index, and then the last (or, behind an `if _, ok := m[idx]; !ok` guard, the first) iteration wins.
+func (c *classifier) isKeyItself(x ast.Expr) bool {
+	switch e := x.(type) {
+	case *ast.ParenExpr:
+		return c.isKeyItself(e.X)
+	case *ast.Ident:
+		return c.keyV != nil && c.obj(e) == c.keyV
+	case *ast.SelectorExpr:
+		if id, ok := e.X.(*ast.Ident); ok && e.Sel.Name == "Name" && c.valV != nil && c.obj(id) == c.valV {
+			return true
+		}
+	case *ast.CallExpr:
+		// a conversion T(k) is injective for the string / integer kinds map keys have here
+		if len(e.Args) == 1 {
+			if tv, ok := c.info.Types[e.Fun]; ok && tv.IsType() {
+				return c.isKeyItself(e.Args[0])
+			}
+		}
+	}
+	return false
+}
+
+// derivedIndex: along a[i].b[j]…, the first index that is built from the loop key without being the key itself
+// (printed), or "" when every key-built index is the key itself.
+func (c *classifier) derivedIndex(x ast.Expr) string {
+	for {
+		switch e := x.(type) {
+		case *ast.IndexExpr:
+			if c.usesKey(e.Index) {
+				if c.isKeyItself(e.Index) {
+					return ""
+				}
+				return mrNodeStr(c.fset, e.Index)
+			}
+			x = e.X
+		case *ast.SelectorExpr:
+			x = e.X
+		case *ast.StarExpr:
+			x = e.X
+		case *ast.ParenExpr:
+			x = e.X
+		default:
+			return ""
 		}
 	}
 }
@@ -577,6 +635,9 @@ func (c *classifier) classify() (string, string, bool) {
 			return "pure-search", fmt.Sprintf("returns=%d (constants only)", ef.returns), errPath
 		}
 		if nonErrReturns == 0 {
+			if len(ef.derived) > 0 {
+				return "order-sensitive", fmt.Sprintf("writes an element indexed by %s, which is DERIVED from the loop key, not the key itself: two keys may give the same index and then the iteration order decides which write survives (injective only under an invariant of the ranged map: needs review)", strings.Join(ef.derived, ", ")), errPath
+			}
 			if len(ef.appendTo) > 0 {
 				var names, unsorted []string
 				for n := range ef.appendTo {
